@@ -1,5 +1,7 @@
 // Command harness drives the real pascaldekloe/mqtt code (built from /repo with
 // -tags verif) and records what it does as Coq case files for the model.
+// It is built as a test binary (go test -c) because testing/synctest needs a
+// *testing.T; see harness_test.go.
 package main
 
 import (
@@ -12,19 +14,25 @@ type runner func(tier string, seed uint64, out string) error
 
 var runners = map[string]runner{}
 
-func main() {
-	prop := flag.String("prop", "", "property id, e.g. C15")
-	tier := flag.String("tier", "quick", "quick|thorough")
-	seed := flag.Uint64("seed", 1, "PRNG seed")
-	out := flag.String("out", "", "output directory")
-	flag.Parse()
+func realMain(args []string) int {
+	fs := flag.NewFlagSet("harness", flag.ContinueOnError)
+	prop := fs.String("prop", "", "property id, e.g. C15")
+	tier := fs.String("tier", "quick", "quick|thorough")
+	seed := fs.Uint64("seed", 1, "PRNG seed")
+	out := fs.String("out", "", "output directory")
+	if err := fs.Parse(args); err != nil {
+		return 2
+	}
 	r, ok := runners[*prop]
 	if !ok || *out == "" {
 		fmt.Fprintf(os.Stderr, "usage: harness -prop Cxx -tier quick|thorough -seed N -out DIR\n")
-		os.Exit(2)
+		return 2
 	}
 	if err := r(*tier, *seed, *out); err != nil {
 		fmt.Fprintf(os.Stderr, "harness %s: %v\n", *prop, err)
-		os.Exit(3)
+		return 3
 	}
+	return 0
 }
+
+func main() { os.Exit(realMain(os.Args[1:])) }
